@@ -419,7 +419,7 @@ func main() {
 		"exploration is exhaustive within the stated deviation bound (preemptions + non-first select cases + early timers), not over all schedules",
 	}
 	bound := harness.Pick(c, 2, 3)
-	budget := harness.Pick(c, 30*time.Second, 30*time.Minute)
+	budget := harness.Pick(c, 30*time.Second, 3*time.Minute)
 	specs := family(c)
 	var pb, db []string
 	for _, sp := range specs {
